@@ -104,7 +104,7 @@ pub open spec fn head_post<const N: usize>(pre: FixedBuf<N>, post: FixedBuf<N>, 
         Ok(h) => data_only(evs) && has_delim(all) && parse_head(all.subrange(0, fd(all))) == Ok::<Head, HeadError>(h)
                  && post.rd() == all.subrange(fd(all) + 4, all.len() as int),
         Err(e) =>
-            if e is HeadTooLong { data_only(evs) && !has_delim(all) && post.wi() == N && post.rd() == all }
+            if e is HeadTooLong { data_only(evs) && !has_delim(all) && post.wi() == N && post.rd() == all && post.ri() == pre.ri() }
             // end of stream / read error arrived while there was still room in the buffer
             else if e is Disconnected { evs.len() > 0 && !(evs.last() is Data) && data_only(evs.drop_last()) && all.len() == 0
                                         && post.rd() == all && post.wi() < N }
@@ -124,4 +124,12 @@ pub open spec fn http_error_of(e: HeadError) -> HttpError {
         HeadError::UnsupportedProtocol => HttpError::UnsupportedProtocol,
         HeadError::MalformedHeader => HttpError::MalformedHeaderLine,
     }
+}
+
+// read_http_request starts with `buf.shift(); read_http_head(buf, reader)`: the head gets the whole
+// buffer, so HeadTooLong means BUF_SIZE bytes without a delimiter, wherever the previous message ended
+pub open spec fn request_head_post<const N: usize>(pre: FixedBuf<N>, post: FixedBuf<N>, evs: Seq<Ev>, r: Result<Head, HttpError>) -> bool {
+    let all = pre.rd() + bytes_of(evs);
+    &&& exists|mid: FixedBuf<N>| #[trigger] mid.wf() && mid.ri() == 0 && mid.rd() == pre.rd() && head_post(mid, post, evs, r)
+    &&& (r is Err && r->Err_0 is HeadTooLong) ==> all.len() == N
 }
